@@ -54,6 +54,11 @@ def base_objects(rng, nsecrets=5):
     add(4, "prefix", 1, "prefix", rng.randrange(NPREFIX))
     add(4, "prefix", 1, "prefix", (objs[-1]["params"]["prefix_id"] + 1 + rng.randrange(NPREFIX - 1)) % NPREFIX)  # re-registration, other prefix
     add(2, "min", 3, libver=rng.choice([0, 2, 4]))
+    # registration flags (set by the client or by the station that shared the registration) say nothing about this
+    # station's own validation
+    for o in objs:
+        o["flags"] = [f for f in ("prescanned", "upload_only", "dark_decoy", "proxy_header", "use_til") if rng.random() < 0.35]
+    objs[rng.randrange(len(objs))]["flags"] = ["prescanned"]
     return objs
 
 
@@ -73,6 +78,8 @@ def gen_history(rng, objs, stages=None):
         ops.append(per[k].pop(0))
         if rng.random() < 0.1:
             ops.append({"op": "sweep", "obj": 0})
+    if stages is None and rng.random() < 0.4:       # the lifetime of everything tracked so far runs out at some point
+        ops.insert(rng.randrange(len(ops) + 1), {"op": "advance", "obj": 0})
     return ops
 
 
@@ -249,6 +256,52 @@ def gen_scenarios(ctx, table):
         probes = [{"flight": i, "transport": "prefix", "phantom": 0, "mut": {"kind": "none"}} for i in (0, 1)]
         mk(objs, ops, fl, probes, name="revalidate")
 
+    # 3d. flagged registrations that are tracked but not (or no longer) validated
+    sec = [rhex(rng, 32) for _ in range(3)]
+    objs = [{"secret": sec[0], "transport": "min", "phantom": 0, "libver": 4, "params": {"kind": "generic"}, "flags": ["prescanned"]},
+            {"secret": sec[1], "transport": "prefix", "phantom": 0, "libver": 4, "params": {"kind": "prefix", "prefix_id": table_ids[0]},
+             "flags": ["prescanned", "proxy_header"]},
+            {"secret": sec[2], "transport": "obfs4", "phantom": 1, "libver": 4, "params": {"kind": "generic"}, "flags": ["prescanned"]},
+            {"secret": sec[0], "transport": "min", "phantom": 2, "libver": 4, "params": {"kind": "generic"}, "flags": ["prescanned"]}]
+    ops = [{"op": "track", "obj": 0}, {"op": "track_ine", "obj": 1}, {"op": "track", "obj": 2}, {"op": "validate", "obj": 3},
+           {"op": "expire", "obj": 3}, {"op": "track", "obj": 3}]
+    fl = [{"kind": "genuine", "obj": k, "prefix_id": table_ids[0], "station": 0, "extra": "", "role": "own"} for k in range(4)]
+    probes = [{"flight": k, "transport": objs[k]["transport"], "phantom": objs[k]["phantom"], "mut": {"kind": "none"}} for k in range(4)]
+    mk(objs, ops, fl, probes, name="flagged")
+
+    # 3c. dual-stack: ONE (secret, transport) tracked and validated on two and three phantoms (what ingest does for a
+    #     v4+v6 client), other secrets sharing those phantoms, one secret with several transports on one phantom;
+    #     expiry through the real sweep after time has passed, then genuine flights at every phantom
+    for variant in range(6):
+        sec = [rhex(rng, 32) for _ in range(4)]
+        pid = rng.choice(table_ids)
+
+        def ob(si, tr, ph, kind="generic", p=0):
+            return {"secret": sec[si], "transport": tr, "phantom": ph, "libver": 4, "params": {"kind": kind, "prefix_id": p}}
+        objs = [ob(0, "min", 0), ob(0, "min", 2), ob(0, "min", 3),                   # one secret+transport, three phantoms
+                ob(1, "prefix", 0, "prefix", pid), ob(1, "prefix", 2, "prefix", pid),  # two phantoms
+                ob(2, "obfs4", 1), ob(2, "obfs4", 2),
+                ob(0, "prefix", 0, "prefix", pid),                                      # same secret, another transport, same phantom
+                ob(3, "min", 0), ob(3, "min", 2)]                                      # another secret sharing both phantoms
+        order = list(range(len(objs)))
+        if variant % 2:
+            rng.shuffle(order)
+        ops = []
+        for k in order:
+            ops += [{"op": rng.choice(["track", "track_ine"]), "obj": k}, {"op": "validate", "obj": k}]
+        tail = [[("advance", 0)],
+                [("expire", 0)],                                   # the twin tracked first
+                [("expire", 1), ("expire", 4), ("expire", 6)],     # the twins tracked later
+                [("advance", 0), ("validate", 1), ("validate", 3)],
+                [("expire", 0), ("expire", 2), ("expire", 3), ("expire", 5), ("expire", 8)],
+                [("expire", order[0]), ("sweep", 0), ("expire", order[1])]][variant]
+        ops += [{"op": a, "obj": b} for a, b in tail]
+        fl = [{"kind": "genuine", "obj": k, "prefix_id": pid, "station": 0, "extra": "" if objs[k]["transport"] == "obfs4" else "c0de",
+               "role": "own"} for k in range(len(objs))]
+        probes = [{"flight": k, "transport": objs[k]["transport"], "phantom": q, "mut": {"kind": "none"}}
+                  for k in range(len(objs)) for q in range(len(PHANTOMS))]
+        mk(objs, ops, fl, probes, name="dualstack")
+
     # 4. table-driven reveal function and custom prefix tables (iteration-order dependence, thresholds)
     for _ in range(1 if quick else 6):
         scs.append(gen_synthetic(rng, 120 if quick else 400))
@@ -351,6 +404,9 @@ class Scn:
             if op["op"] == "sweep":
                 ts.append("Sweep")
                 continue
+            if op["op"] == "advance":
+                ts.append("ExpireAll")
+                continue
             o = self.objs[op["obj"]]
             if o["err"] or note == "noobj":
                 continue
@@ -368,6 +424,9 @@ class Scn:
         st = {}
         for op, note in zip(self.sc["ops"], self.out["op_notes"]):
             if op["op"] == "sweep":
+                continue
+            if op["op"] == "advance":
+                st.clear()
                 continue
             o = self.objs[op["obj"]]
             if o["err"] or note == "noobj":
@@ -579,6 +638,14 @@ def run(ctx):
             if len(fo["hex"]) <= 2 * lib.BIG * 6:
                 defs.append("Definition fl_%d_%d : bytes := Eval vm_compute in %s." % (si, fi, hexs(bytes.fromhex(fo["hex"]))))
         live = S.live()
+        if any(op["op"] == "advance" for op in sc["ops"]):
+            ctx.cov["histogram"]["history/lifetime-elapsed"] = ctx.cov["histogram"].get("history/lifetime-elapsed", 0) + 1
+        tracked_ids = {}
+        for oo in o["objects"]:
+            if oo["id"]:
+                tracked_ids.setdefault(oo["id"], set()).add(oo["phantom"])
+        if any(len(phs) > 1 and 0 < sum(1 for q in phs if (q, i) in live and live[(q, i)][1]) < len(phs) for i, phs in tracked_ids.items()):
+            ctx.cov["histogram"]["history/twin-expired-other-twin-live"] = ctx.cov["histogram"].get("history/twin-expired-other-twin-live", 0) + 1
         if S.foreign_validates:
             ctx.cov["histogram"]["history/validate-by-other-object"] = ctx.cov["histogram"].get("history/validate-by-other-object", 0) + 1
         # registry view correspondence
@@ -627,6 +694,8 @@ def run(ctx):
                     kinds.append("probe/untracked-or-expired")
                 elif not lv[1]:
                     kinds.append("probe/unvalidated")
+                    if "prescanned" in ob.get("flags", []):
+                        kinds.append("probe/unvalidated-prescanned")
                 else:
                     kinds.append("probe/genuine")
             for kd in kinds:
@@ -660,7 +729,7 @@ def run(ctx):
                        "obfs4/err_other", "probe/cross-phantom", "probe/cross-transport", "probe/min-tag-as-prefix-flight",
                        "probe/wrong-prefix", "probe/foreign-station", "probe/bitflip", "probe/truncated", "probe/untracked-or-expired",
                        "probe/unvalidated", "probe/genuine", "view/nonempty", "view/empty", "object/rejected-at-ingest",
-                       "history/validate-by-other-object"])
+                       "probe/unvalidated-prescanned", "history/validate-by-other-object", "history/twin-expired-other-twin-live", "history/lifetime-elapsed"])
     lap("oracle+emit")
     dname = "defs_C02_%d" % os.getpid()
     rc, o3 = ctx.coq_eval(dname, HEADER + "\n".join(defs) + "\n")
